@@ -205,6 +205,35 @@ def concretise_struct(pk, c):
     return case
 
 
+def fuzz_case(pk):
+    """A datagram near a well-formed one (one byte changed / cut / extended) or plain noise.
+    No class is claimed for it: ParseRequest alone says what must happen."""
+    r = pk.r
+    kind = r.choice(("connect", "announce", "scrape", "noise"))
+    if kind == "noise":
+        b = pk.rb(r.choice((0, 1, 11, 12, 15, 16, 17, 36, 97, 98, 99, r.randrange(0, 300))))
+        if len(b) >= 12 and r.random() < 0.7:
+            b[8:12] = be(r.choice((0, 1, 2)), 4)
+    else:
+        if kind == "connect":
+            b = enc_req(kind, {"tid": pk.val(4)})
+        elif kind == "announce":
+            b = enc_req(kind, pk.announce()) + pk.rb(r.choice((0, 0, 0, 1, 2, 8, 40)))
+        else:
+            b = enc_req(kind, pk.scrape(r.choice((1, 1, 2, 3, 5, 20, 74))))
+        what = r.random()
+        if what < 0.45:
+            i = r.randrange(len(b))
+            if r.random() < 0.5:
+                i = r.choice((8, 9, 10, 11, 80, 81, 82, 83, 96, 97, 0, 7)) % len(b)
+            b[i] = r.choice((0, 1, 2, 3, 4, 255, b[i] ^ (1 << r.randrange(8)), r.randrange(256)))
+        elif what < 0.7:
+            b = b[:r.randrange(len(b) + 1)]
+        elif what < 0.85:
+            b = b + pk.rb(r.choice((1, 2, 19, 20, 21)))
+    return {"ev": "parse", "bytes": b, "max": pk.maxscrape()}
+
+
 def sweep(pk, fields, make):
     """Field-by-field boundary sweep: every boundary value of every field once, the other
     fields random (so any two fields differ and an exchange of fields shows)."""
@@ -220,7 +249,7 @@ def sweep(pk, fields, make):
 def concretise_rt(pk, c, quick):
     """Well-formed messages for one abstract choice c = {dir, kind, event, fam, n}."""
     d, kind, n, fam = c["dir"], c["kind"], c["n"], c["fam"]
-    nrand = 12 if quick else 150
+    nrand = 12 if quick else 1200
     cases = []
     if d == "req":
         if kind == "connect":
@@ -291,7 +320,7 @@ def concretise_rt(pk, c, quick):
 def build_runs(ctx, struct, rt):
     pk = Picker(ctx.seed * 7919 + 13)
     groups = {}
-    reps = 1 if ctx.quick() else 2
+    reps = 1 if ctx.quick() else 4
     for c in struct:
         heavy = c["grp"] == "cut" and c["p"]["n"] > 16
         for _ in range(1 if heavy else reps):
@@ -300,6 +329,7 @@ def build_runs(ctx, struct, rt):
     for c in rt:
         for case in concretise_rt(pk, c, ctx.quick()):
             groups.setdefault("%s:%s" % (c["dir"], c["kind"]), []).append(case)
+    groups["parse:fuzz"] = [fuzz_case(pk) for _ in range(400 if ctx.quick() else 12000)]
     runs = []
     cid = 0
     for name in sorted(groups):
@@ -368,7 +398,8 @@ def mut_swap_fields(evs):
 def mut_accept(evs):
     """a rejected datagram (bad event) logged as accepted"""
     for i, e in enumerate(evs):
-        if e.get("ev") == "parse" and not e["res"].get("ok") and e["gen"]["x"]["class"] == "bad_event":
+        if e.get("ev") == "parse" and not e["res"].get("ok") and "gen" in e \
+                and e["gen"]["x"]["class"] == "bad_event":
             m = _copy(evs)
             f = {"cid": [0] * 8, "tid": [0] * 4, "hash": [0] * 20, "pid": [0] * 20, "down": [0] * 8,
                  "left": [0] * 8, "up": [0] * 8, "event": "none", "ip": [0] * 4, "key": [0] * 4,
@@ -425,14 +456,14 @@ def observed(tpath):
         o["by_ev"][ev] = o["by_ev"].get(ev, 0) + 1
         g = e.get("gen") or {}
         if ev == "parse":
-            cl = g["x"]["class"]
+            cl = g["x"]["class"] if g else "(fuzz: class decided by the specification only)"
             o["classes"][cl] = o["classes"].get(cl, 0) + 1
             o["bytes"] += len(e["bytes"])
             o["max_scrape"].add(e["max"])
-            if g["grp"] == "cut":
+            if g and g["grp"] == "cut":
                 o["cut_pairs"] += 1
                 o["scrape_hashes"].add(g["p"]["n"])
-            if g["grp"] == "trunc":
+            if g and g["grp"] == "trunc":
                 o["trunc_lengths"].add(g["p"]["len"])
             r = e["res"]
             if r["ok"]:
@@ -462,8 +493,9 @@ NEEDED_CLASSES = ("ok", "ok_padded", "too_few", "bad_magic", "bad_event", "port_
 
 def run(ctx):
     # 1. laws of the reference codec
-    res = run_tlc(ctx, "Bep15_MC", "Bep15_MC.cfg", workers=8, timeout=600)
-    require_mc_ok(ctx, res, "Bep15_MC.cfg")
+    mc_cfg = "Bep15_MC.cfg" if ctx.quick() else "Bep15_MC_T.cfg"   # 2 / 3 value patterns per field
+    res = run_tlc(ctx, "Bep15_MC", mc_cfg, workers=8, timeout=1200)
+    require_mc_ok(ctx, res, mc_cfg)
     # negative controls: wrong codecs must be refuted by the same laws
     negs = ["Bep15_MC_Neg.cfg"] if ctx.quick() else ["Bep15_MC_Neg.cfg", "Bep15_MC_Neg2.cfg", "Bep15_MC_Neg3.cfg"]
     for cfg in negs:
@@ -497,7 +529,7 @@ def run(ctx):
     o = observed(tpath)
     missing = [c for c in NEEDED_CLASSES if not o["classes"].get(c)]
     evs_seen = [e for e in EVENTS if o["announce_events"].get(e) and o["announce_events"].get("w:" + e)]
-    if missing or len(evs_seen) != 4 or not o["accepted"] or not o["rejected"]:
+    if not fails and (missing or len(evs_seen) != 4 or not o["accepted"] or not o["rejected"]):
         raise ToolError("vacuity: classes never exercised %s, events seen %s" % (missing, evs_seen))
     ctx.coverage.update({
         "rule": "every structural class of request datagram that TLC enumerates (truncation lengths, action, "
